@@ -61,6 +61,7 @@ def measure(fam, sname):
         recopied = []
     eff = {}
     for lname, lab in fam.labels.items():
+        catalog.reset_pool()
         r = fam.seeds[sname]()
         before = {a: (id(vars(r)[a]), deep_repr(vars(r)[a])) for a in attrs}
         try:
@@ -100,7 +101,8 @@ def tables_module(scens, meas, intended: bool) -> str:
             r = sorted(set(r) | {x for l in e.values() for x, k in l.items() if k == "inplace" and x in a})
         labs = sorted(e)
         labels.append((sid, tla_str_set(labs)))
-        hot.append((sid, tla_str_set(l for l in labs if any(k in ("inplace", "nested") for k in e[l].values()))))
+        # labels that pass a shared pool object are always explored deep: re-tagging an argument only shows after several calls
+        hot.append((sid, tla_str_set(l for l in labs if "#pool" in l or any(k in ("inplace", "nested") for k in e[l].values()))))
         ks.append((sid, str(len(a))))
         rec.append((sid, "{" + ", ".join(str(a.index(x) + 1) for x in r) + "}"))
         inner = [(l, "<<" + ", ".join('"%s"' % ("rebind" if intended and e[l][x] == "nested" else e[l][x]) for x in a) + ">>") for l in labs]
@@ -166,6 +168,7 @@ def execute(job):
     """job = (tid, sid, fname, sname, hist) -> event with observation digests after every step"""
     tid, sid, fname, sname, hist = job
     fam = _fams()[fname]
+    catalog.reset_pool()
     seed = fam.seeds[sname]()
     objs = [seed]
     obs = [observe.render_all(seed)]
@@ -251,7 +254,7 @@ def run(tier: str, prop: str = "C01") -> int:
     gaps, have = coverage_gaps(fams)
     meas = {sid: measure(fams[fname], sname) for sid, fname, sname in scens}
     dups = '"copy", "deepcopy", "pickle"' if prop == "C15" else ""
-    maxcalls, maxdeep = (2, 3)
+    maxcalls, maxdeep = (2, 4)
     deepany = "FALSE"
     if prop == "C15":
         # duplication histories: [dup, call], [call, dup] everywhere; [call, dup, call] on the "full" seeds (thorough)
